@@ -7,18 +7,21 @@ def cubes_access(tier):
                [dict(lazy="d", op1=o, nops=2, ops2=[4, 5, 6], _w=2) for o in (0, 1, 4)] + \
                [dict(lazy="d/s", op1=o, nops=2, ops2=[0, 1, 2], _w=2) for o in (1, 2, 6)] + \
                [dict(lazy="d", op1=1, nops=1, symshape=True)] + \
-               [dict(lazy="d", op1=6, nops=2, ops2=[0, 6], where="remote", _w=2), dict(lazy="d/s", op1=1, nops=2, ops2=[6], where="remote")]
+               [dict(lazy="d", op1=6, nops=2, ops2=[0, 6], where="remote", _w=2), dict(lazy="d/s", op1=1, nops=2, ops2=[6], where="remote")] + \
+               [dict(lazy="d", op1=o, nops=2, ops2=[0, 1, 2, 3], backend="sqlite", _w=2) for o in (0, 1, 2)] + \
+               [dict(lazy="d/s", op1=4, nops=2, ops2=[1, 5, 6], backend="sqlite", _w=2)]
     out = [dict(lazy=l, op1=o, nops=2, shape=s, _w=2) for l in ("d", "d/s") for o in range(7)
            for s in ([1, 1, 1, 1], [1, 0, 1, 1], [0, 1, 1, 0], [1, 1, 0, 1])]
     out += [dict(lazy="d", op1=o, nops=3, _w=8) for o in range(7)]
     out += [dict(lazy=l, op1=o, nops=2, where="remote", _w=2) for l in ("d", "d/s") for o in range(7)]
+    out += [dict(lazy=l, op1=o, nops=2, backend="sqlite", _w=3) for l in ("d", "d/s") for o in range(7)]
     return out
 
 
 def cubes_view(tier):
     if tier == "quick":
-        return [dict(lazy="d"), dict(lazy="d/s")]
-    return [dict(lazy=l, symshape=True) for l in ("d", "d/s")]
+        return [dict(lazy="d"), dict(lazy="d/s"), dict(lazy="d", backend="sqlite")]
+    return [dict(lazy=l, symshape=True, backend=b) for l in ("d", "d/s") for b in ("memory", "sqlite")]
 
 
 SPEC = Spec(
@@ -42,7 +45,7 @@ SPEC = Spec(
           encodes="index.view.view/DataIndexView.iteritems/_iteritems/_load_dir_keys/traverse/__getitem__/ls", stubs=("model filesystem",)),
     ],
     assumptions=["directory objects in the cache are intact", "the expanded reference index lists what the directory object lists"],
-    outside=["SQLite-backed indexes (C extension)", "FileStorage-backed directories", "more than 4 files / depth 3", "access sequences longer than 3"],
+    outside=["SQLite-backed indexes on disk (the `backend=sqlite` cubes use sqltrie's private in-memory database; its SQL layer runs concretely, outside tracing)", "FileStorage-backed directories", "more than 4 files / depth 3", "access sequences longer than 3"],
     explanation="CrossHair runs the real DataIndex / DataIndexView / DataFileSystem code with the access sequence (operation kinds and keys) and the "
                 "view's filter prefix symbolic; every observation on the lazily loaded index must equal the same observation on an explicitly listed "
                 "index; bytes through the adaptor are compared with the generated contents.",
